@@ -6,6 +6,7 @@ tree, the named checks are run (quick tier), and the tree is restored (git check
 usage: tools/hand_mutants.py [name ...]      (no name: all)
 """
 
+import os
 import subprocess
 import sys
 import time
@@ -41,28 +42,35 @@ def sh(cmd, **kw):
 
 def main():
     names = sys.argv[1:]
-    if sh("git -C %s diff --quiet" % REPO).returncode != 0:
-        print("/repo is dirty")
+    scratch = "/tmp/wt/hm.%d" % os.getpid()
+    work = "/tmp/wt/hmwork.%d" % os.getpid()
+    if sh("git -C %s worktree add -q --detach %s HEAD" % (REPO, scratch)).returncode != 0:
+        print("cannot create scratch worktree")
         return 2
+    env = dict(os.environ, NUCS_REPO=scratch, VERIF_WORK=work + "/work", VERIF_EVIDENCE_DIR=work + "/ev", VERIF_REPLAY_DIR=work + "/rp")
     rows = []
-    for name, f, old, new, props in M:
-        if old is None or (names and name not in names):
-            continue
-        path = "%s/%s" % (REPO, f)
-        s = open(path).read()
-        if s.count(old) != 1:
-            print("%s: pattern found %d times, skipped" % (name, s.count(old)))
-            continue
-        try:
-            open(path, "w").write(s.replace(old, new))
-            for p in props:
-                t0 = time.time()
-                r = sh("cd /verif && ./check.py %s --tier quick" % p)
-                first = next((l for l in r.stdout.splitlines() if l.startswith("violation:")), "")
-                rows.append((name, p, r.returncode, time.time() - t0, first[:160]))
-                print("%-28s %s rc=%d %.0fs %s" % rows[-1], flush=True)
-        finally:
-            sh("git -C %s checkout -- ." % REPO)
+    try:
+        for name, f, old, new, props in M:
+            if old is None or (names and name not in names):
+                continue
+            path = "%s/%s" % (scratch, f)
+            s = open(path).read()
+            if s.count(old) != 1:
+                print("%s: pattern found %d times, skipped" % (name, s.count(old)), flush=True)
+                continue
+            try:
+                open(path, "w").write(s.replace(old, new))
+                for p in props:
+                    t0 = time.time()
+                    r = sh("cd /verif && ./check.py %s --tier quick" % p, env=env)
+                    first = next((l for l in r.stdout.splitlines() if l.startswith("violation:")), "")
+                    rows.append((name, p, r.returncode, time.time() - t0, first[:200]))
+                    print("%-28s %s rc=%d %.0fs %s" % rows[-1], flush=True)
+            finally:
+                sh("git -C %s checkout -- ." % scratch)
+    finally:
+        sh("git -C %s worktree remove --force %s" % (REPO, scratch))
+        sh("rm -rf %s" % work)
     missed = [r for r in rows if r[2] != 1]
     print("caught %d / %d" % (len(rows) - len(missed), len(rows)))
     return 0
